@@ -118,3 +118,7 @@ impl Sizeable for BatchAccumulator {
         self.current_size + RETAINED_BATCH_HEADER_LEN.into()
     }
 }
+
+#[cfg(kani)]
+#[path = "/verif/harness/server/hooks/batch_accumulator.rs"]
+pub(crate) mod verif_hook;
